@@ -15,8 +15,10 @@ import (
 	"unsafe"
 
 	"verif/mc/chain"
+	"verif/mc/faultdb"
 
 	"github.com/NethermindEth/juno/blockchain"
+	"github.com/NethermindEth/juno/core/felt"
 	"github.com/NethermindEth/juno/db"
 	"github.com/NethermindEth/juno/db/memory"
 	"github.com/cespare/xxhash/v2"
@@ -35,10 +37,67 @@ const (
 	opQuery    // one full-range query on the long-lived node: warms the LRU of aggregated filters
 	opRestartG // WriteRunningEventFilter (graceful shutdown) then a new Blockchain on the same store
 	opRestartU // new Blockchain on the same store, snapshot NOT written
+
+	// Fault ops: the operation FAILS (juno returns an error), the canonical chain is unchanged, and the node
+	// KEEPS RUNNING - no restart and no revert follows unless the history says so. They may stand at any
+	// position of a history (see search: at most maxFaults of them per history, histories that contain one
+	// are explored to faultDepth).
+	opStoreFail1  // store:X whose 1st durable commit returns an error and applies nothing (verif/mc/faultdb)
+	opStoreFail2  // ... whose 2nd durable commit fails (not enabled when the op has a single commit)
+	opRevertFail1 // revertHead whose 1st durable commit fails
+	opRevertFail2 // ... 2nd
+	// rejected blocks: both pass SanityCheckNewHeight (self-consistent hash and commitments) and are refused by Store
+	opStoreOrphan  // a valid block X of height head+1 built on a SIBLING of the head (parent does not match the head)
+	opStoreBadRoot // the valid next block X offered with a state update whose old root is not the head's state root
 )
 
 var opNames = map[op]string{opStoreX: "store:X", opStoreY: "store:Y", opStoreZ: "store:Z", opStoreE: "store:-", opRevert: "revert",
-	opQuery: "query", opRestartG: "restart-graceful", opRestartU: "restart-ungraceful"}
+	opQuery: "query", opRestartG: "restart-graceful", opRestartU: "restart-ungraceful",
+	opStoreFail1: "store:X!commit#1-fails", opStoreFail2: "store:X!commit#2-fails", opRevertFail1: "revert!commit#1-fails", opRevertFail2: "revert!commit#2-fails",
+	opStoreOrphan: "store!orphan-rejected", opStoreBadRoot: "store:X!bad-old-root-rejected"}
+
+// faultOps in the order they are appended to a search alphabet.
+var faultOps = []op{opStoreFail1, opStoreFail2, opRevertFail1, opRevertFail2, opStoreOrphan, opStoreBadRoot}
+
+func isFault(o op) bool { return o >= opStoreFail1 }
+
+func faults(p []op) (n int) {
+	for _, o := range p {
+		if isFault(o) {
+			n++
+		}
+	}
+	return
+}
+
+// faultTag names the kinds of failed operations in a history (part of violation keys).
+func faultTag(p []op) string {
+	var sc, rc, rj bool
+	for _, o := range p {
+		switch o {
+		case opStoreFail1, opStoreFail2:
+			sc = true
+		case opRevertFail1, opRevertFail2:
+			rc = true
+		case opStoreOrphan, opStoreBadRoot:
+			rj = true
+		}
+	}
+	var k []string
+	if sc {
+		k = append(k, "failed-store-commit")
+	}
+	if rc {
+		k = append(k, "failed-revert-commit")
+	}
+	if rj {
+		k = append(k, "rejected-block")
+	}
+	if len(k) == 0 {
+		return ""
+	}
+	return " [node kept running after " + strings.Join(k, "+") + "]"
+}
 
 func opShape(o op) int {
 	switch o {
@@ -121,13 +180,25 @@ type node struct {
 	ctx   string                 // scenario tag appended to violation keys (failed-commit sweep)
 	diag  *blockchain.Blockchain // restarted twin on a copy of pre, built on the first failing query
 	db    *memory.Database
+	fdb   *faultdb.DB // commit-fault proxy juno writes through (search nodes); nil = juno sits on db directly
 	bc    *blockchain.Blockchain
 	chain []*chain.Entry
 }
 
+// open: juno runs on a faultdb proxy over a private copy of the base image, so that any op of a history can be
+// "this commit fails". The proxy is transparent until FailAt is armed.
 func (b *base) open() *node {
 	d := fastCopy(b.img)
-	return &node{b: b, db: d, bc: chain.NewNode(d, b.newState), chain: append([]*chain.Entry{}, b.chain...)}
+	f := faultdb.Wrap(d)
+	return &node{b: b, db: d, fdb: f, bc: chain.NewNode(f, b.newState), chain: append([]*chain.Entry{}, b.chain...)}
+}
+
+// store is what a (re)started Blockchain opens.
+func (n *node) store() db.KeyValueStore {
+	if n.fdb != nil {
+		return n.fdb
+	}
+	return n.db
 }
 
 func (n *node) head() *chain.Entry {
@@ -139,12 +210,48 @@ func (n *node) head() *chain.Entry {
 
 func noPreConfirmed() (blockchain.PreConfirmedReader, error) { return nil, nil }
 
-// enabled: revert and query need a block.
+// enabled: revert and query need a block; commit faults need the proxy.
 func (n *node) enabled(o op) bool {
-	if o == opRevert || o == opQuery {
+	switch o {
+	case opRevert, opQuery:
 		return len(n.chain) > 0
+	case opRevertFail1, opRevertFail2:
+		return len(n.chain) > 0 && n.fdb != nil
+	case opStoreFail1, opStoreFail2:
+		return n.fdb != nil
 	}
 	return true
+}
+
+var (
+	errDisabled       = fmt.Errorf("op not enabled")
+	errFaultSwallowed = fmt.Errorf("op reports success although one of its commits failed")
+	errAccepted       = fmt.Errorf("a block that does not connect to the head was accepted")
+	errHarnessBlock   = fmt.Errorf("harness block meant to be rejected by Store does not pass the sanity check")
+	// the query op of a history returned something else than the naive scan
+	errHistoryQueryWrong = fmt.Errorf("query op answered wrongly")
+)
+
+var historyQueryFilters = []*filter{
+	{name: "addr={} keys=[]", wildcard: true},
+	{name: "addr={A,B} keys=[]", addrs: []felt.Address{felt.Address(kA), felt.Address(kB)}},
+}
+
+// bogusRoot is a state root no state of this universe has.
+var bogusRoot = felt.FromUint64[felt.Felt](0xbad0bad0bad)
+
+// orphan: a valid block X of height head+1 whose parent is a sibling of the head (on an empty store: a block
+// number 1). It is what a peer on another fork would send.
+func (n *node) orphan() (e, parent *chain.Entry) {
+	var grand *chain.Entry
+	if len(n.chain) >= 2 {
+		grand = n.chain[len(n.chain)-2]
+	}
+	sib := buildEntry(grand, shZ)
+	if h := n.head(); h != nil && sib.Block.Hash.Equal(h.Block.Hash) {
+		sib = buildEntry(grand, shEmpty)
+	}
+	return buildEntry(sib, shX), sib
 }
 
 // apply performs one op on the live node. An error is an op failure (reported by the caller).
@@ -162,29 +269,82 @@ func (n *node) apply(o op) error {
 		}
 		n.chain = n.chain[:len(n.chain)-1]
 	case opQuery:
-		ef, err := n.bc.EventFilter(nil, nil, noPreConfirmed)
-		if err != nil {
-			return err
-		}
-		var tok *blockchain.ContinuationToken
-		for i := 0; i < 1000; i++ {
-			_, next, err := ef.Events(tok, 100)
+		// two full-range queries (everything; everything emitted by A or B - all events of this universe, but answered
+		// through the bloom index). Both load every window of the chain, which is what warms the LRU. Their answers are
+		// compared too: this is the only query that sees the node exactly as the history left it (the grid of a state
+		// runs after the lazy running filter has been forced).
+		for _, f := range historyQueryFilters {
+			ef, err := n.bc.EventFilter(f.addrs, f.keys, noPreConfirmed)
 			if err != nil {
 				return err
 			}
-			if next.IsEmpty() {
-				break
+			var got []blockchain.FilteredEvent
+			var tok *blockchain.ContinuationToken
+			for i := 0; i < 1000; i++ {
+				evs, next, err := ef.Events(tok, 100)
+				if err != nil {
+					return err
+				}
+				got = append(got, evs...)
+				if next.IsEmpty() {
+					break
+				}
+				t := next
+				tok = &t
 			}
-			t := next
-			tok = &t
+			exp := naive(allEvents(n.chain), f, 0, uint64(len(n.chain)-1), true)
+			if !equalLists(got, exp) {
+				kind, blk := classify(got, exp)
+				return fmt.Errorf("%w: filter %s: %s (block %d): got %d events, expected %d", errHistoryQueryWrong, f.name, kind, blk, len(got), len(exp))
+			}
 		}
 	case opRestartG:
 		if err := n.bc.WriteRunningEventFilter(); err != nil {
 			return err
 		}
-		n.bc = chain.NewNode(n.db, n.b.newState)
+		n.bc = chain.NewNode(n.store(), n.b.newState)
 	case opRestartU:
-		n.bc = chain.NewNode(n.db, n.b.newState)
+		n.bc = chain.NewNode(n.store(), n.b.newState)
+	case opStoreFail1, opStoreFail2, opRevertFail1, opRevertFail2:
+		k, inner := 1, opStoreX
+		if o == opStoreFail2 || o == opRevertFail2 {
+			k = 2
+		}
+		if o == opRevertFail1 || o == opRevertFail2 {
+			inner = opRevert
+		}
+		c0 := n.fdb.Commits()
+		n.fdb.FailAt(c0+k, nil)
+		err := n.apply(inner)
+		if n.fdb.Commits() < c0+k {
+			return errDisabled // the op has fewer than k commits (it was performed; the caller drops this node)
+		}
+		if err == nil {
+			return errFaultSwallowed
+		}
+		// juno reported the failure; the reference chain is unchanged (apply appends / truncates only on success)
+	case opStoreOrphan:
+		e, parent := n.orphan()
+		return n.storeRejected(e.Fresh(parent))
+	case opStoreBadRoot:
+		fe := buildEntry(n.head(), shX).Fresh(n.head())
+		su := *fe.SU
+		su.OldRoot = &bogusRoot
+		fe.SU = &su
+		return n.storeRejected(fe)
+	}
+	return nil
+}
+
+// storeRejected feeds a block through the sync path; the sanity check must pass (else the harness block is not what
+// it claims to be: infrastructure error) and Store must refuse it.
+func (n *node) storeRejected(fe *chain.Entry) error {
+	cm, err := n.bc.SanityCheckNewHeight(fe.Block, fe.SU, fe.Classes)
+	if err != nil {
+		return fmt.Errorf("%w: %v", errHarnessBlock, err)
+	}
+	if err := n.bc.Store(fe.Block, cm, fe.SU, fe.Classes); err == nil {
+		return errAccepted
 	}
 	return nil
 }
@@ -203,8 +363,6 @@ func (b *base) replay(p []op) (*node, int, error) {
 	}
 	return n, -1, nil
 }
-
-var errDisabled = fmt.Errorf("op not enabled")
 
 // ---- concrete state key -----------------------------------------------------------------------
 
@@ -267,13 +425,16 @@ func (n *node) keyExcluding(skip string) string {
 	}
 	h.Write(acc[:])
 	// live objects
+	// (one pointer table for both objects: an object reachable from both - e.g. a cached entry that IS the running
+	// filter's live window - is part of the state, because later inserts then show through the cache or do not)
 	bv := reflect.ValueOf(n.bc).Elem()
+	shared := map[unsafe.Pointer]int{}
 	for _, fn := range []string{"runningFilter", "cachedFilters"} {
 		f := bv.FieldByName(fn)
 		if !f.IsValid() {
 			panic("INFRA: blockchain.Blockchain has no field " + fn)
 		}
-		d := &dumper{h: xxhash.New(), seen: map[unsafe.Pointer]int{}}
+		d := &dumper{h: xxhash.New(), seen: shared}
 		d.walk(f)
 		var x [8]byte
 		binary.LittleEndian.PutUint64(x[:], d.h.Sum64())
@@ -326,7 +487,7 @@ func (d *dumper) walk(v reflect.Value) {
 			return
 		}
 		e := v.Elem()
-		if e.Type() == reflect.TypeOf((*memory.Database)(nil)) {
+		if e.Type() == reflect.TypeOf((*memory.Database)(nil)) || e.Type() == reflect.TypeOf((*faultdb.DB)(nil)) {
 			d.u64(2) // the store itself is keyed by its image
 			return
 		}
@@ -337,8 +498,8 @@ func (d *dumper) walk(v reflect.Value) {
 			d.u64(0)
 			return
 		}
-		if v.Type() == reflect.TypeOf((*memory.Database)(nil)) {
-			d.u64(2)
+		if v.Type() == reflect.TypeOf((*memory.Database)(nil)) || v.Type() == reflect.TypeOf((*faultdb.DB)(nil)) {
+			d.u64(2) // (the fault proxy holds a commit log and counters, no node state)
 			return
 		}
 		p := v.UnsafePointer()
